@@ -115,15 +115,29 @@ class LatticeView:
 
 
 _views = {}
-_ties = {}
+_ties = weakref.WeakKeyDictionary()      # lattice -> its context (kept as long as the lattice lives)
 
 
 def tie(lattice, ctx):
     """Driver-side: remember which context a lattice was obtained from."""
-    if len(_ties) > 256:
-        _ties.clear()
-    _ties[id(lattice)] = (weakref.ref(lattice), ctx)
+    try:
+        _ties[lattice] = ctx
+    except TypeError:        # unhashable / not weak-referenceable: fall back to the private attribute
+        pass
     return lattice
+
+
+def context_of(lattice):
+    """The context a lattice was tied to (None if unknown)."""
+    try:
+        ctx = _ties.get(lattice)
+    except TypeError:
+        ctx = None
+    if ctx is None:     # optional private name; a refactor must not cause an alarm
+        ctx = getattr(lattice, '_context', None)
+        if ctx is not None:
+            COL.count('lattice_context_via_private_attr')
+    return ctx
 
 
 def view_of(lattice, cap):
@@ -131,11 +145,7 @@ def view_of(lattice, cap):
     ent = _views.get(id(lattice))
     if ent is not None and ent.lattice is lattice:
         return ent
-    ent = _ties.get(id(lattice))
-    ctx = ent[1] if ent is not None and ent[0]() is lattice else None
-    if ctx is None:     # optional private name; a refactor must not cause an alarm
-        ctx = getattr(lattice, '_context', None)
-        COL.count('lattice_context_via_private_attr')
+    ctx = context_of(lattice)
     if ctx is None:
         raise core.HarnessError('lattice is not tied to a context')
     sh = attach.shadow_of(ctx)
